@@ -35,8 +35,8 @@ def check(ctx):
     check_ladder(ctx, ci, P, [Rung("bad-txns-inputs-missingorspent", "!HAVE", {"HAVE": "inputs.HaveInputs(tx)"})], is_accept=is_true_ret, mode="NECESSARY")
     # 3. HaveInputs / HaveCoin twins
     hi = ctx.used(P.fn("CCoinsViewCache::HaveInputs"))
-    atoms = {"COINBASE": "tx.IsCoinBase()", "HAVECOIN": re.compile(r"CCoinsViewCache::HaveCoin\(tx\.vin\[i\]\.prevout\)")}
-    check_ladder(ctx, hi, P, [Rung("missing-input", "!HAVECOIN", atoms, loop=r"for\(0; i < tx\.vin\.size\(\)\)", when="!COINBASE")],
+    atoms = {"COINBASE": "tx.IsCoinBase()", "HAVECOIN": re.compile(r"CCoinsViewCache::HaveCoin\((tx\.vin\[i\]|each\(tx\.vin\))\.prevout\)")}
+    check_ladder(ctx, hi, P, [Rung("missing-input", "!HAVECOIN", atoms, loop=r"(for\(0; i < tx\.vin\.size\(\)\)|each\(tx\.vin\))", when="!COINBASE")],
                  is_accept=is_true_ret, is_reject=is_false_ret, mode="NECESSARY")
     hc = ctx.used(P.fn("CCoinsViewCache::HaveCoin"))
     FC = r"CCoinsViewCache::FetchCoin\(outpoint\)"
@@ -112,7 +112,7 @@ def check(ctx):
                                         "ENFORCE": "fEnforceBIP30", "LOW": "pindex.nHeight < 1983702"})
         cex = F.counterexample(F.parse("HAVE && (ENFORCE || !LOW)"), fb)
         loops = [loop_range_key(l, subst) for l in s.loops]
-        okl = len(loops) == 2 and loops[0] == "each(block.vtx)" and re.fullmatch(r"for\(0; o < each\(block\.vtx\)\.vout\.size\(\)\)", loops[1]) is not None
+        okl = len(loops) == 2 and loops[0] == "each(block.vtx)" and re.fullmatch(r"for\(0; o < each\(block\.vtx\)\.vout\.size\(\)\)|each\(each\(block\.vtx\)\.vout\)", loops[1]) is not None
         ctx.ob("ConnectBlock/BIP30@L%s" % s.line, "LADDER", "for every output of every transaction, an existing unspent coin at the same outpoint rejects the block "
                "(bad-txns-BIP30) when BIP30 is enforced or height >= 1,983,702", cex is None and okl, s.where,
                None if (cex is None and okl) else {"own_guard": F.fshow(own), "loops": loops, "unbound": un, "counterexample": cex})
